@@ -7,6 +7,10 @@
 (*   rep    insts = <<[id,w,t]...>>                            useService(instances)               *)
 (*   ch     k, r     r = id of the server the transport was called for | "nil" (503, not sent)     *)
 (*                   anything else ("panic", "error:...") is accepted by no contract step          *)
+(*   hold   p, k     request p loaded the pool's balancer (sp.LoadBalancer()) and waits             *)
+(*   hpick  p, r     ... and now chooses in the balancer it loaded (lb.ChooseServer(req)); r as in ch *)
+(*   age    b, d     the current balancer (round robin) was put into the state it has after          *)
+(*                   2^b - d selections; the next events are n `ch` (or one `batch`) on it           *)
 EXTENDS LoadBalance, Json, TLC, IOUtils
 
 TLog == ndJsonDeserialize(IOEnv.VERIF_TRACE)
@@ -40,6 +44,40 @@ TCh ==
 (*   batch  picks = <<[k, id, c]...>>   tally of a burst of selections by concurrent callers        *)
 TBatch == IsEvent("batch") /\ Batch(ToSet(TLog[l].picks))
 
+(*   noage  why      the balancer has no server, or keeps no field that counts its selections: it     *)
+(*                   was not aged (the selections made on it to find that out follow as `ch`)          *)
+TSkip == IsEvent("noage") /\ UNCHANGED vars
+
+THold == IsEvent("hold") /\ Hold(TLog[l].p, TLog[l].k)
+
+THPick == IsEvent("hpick") /\ HPickWith(TLog[l].p, TLog[l].r)
+
+(* Which servers had had the extra selection (E) shows in what follows: the next n - |E| sequential *)
+(* selections of a fair balancer go to exactly the servers outside E.  The step takes that E; if    *)
+(* the picks that follow are not n - |E| distinct servers of the list no E explains them, any E is  *)
+(* taken and the offending pick is rejected where it occurs.  Before a burst: an E that explains     *)
+(* its tally, if there is one.                                                                       *)
+TAge ==
+    /\ IsEvent("age")
+    /\ lst[gen] # {}
+    /\ LET ids == Ids(lst[gen])
+           n   == Cardinality(ids)
+           r0  == K0Mod(TLog[l].b, TLog[l].d, n)
+           Es  == {E \in SUBSET ids : Cardinality(E) = r0}
+           nxt == {j \in (l + 1)..(l + n - r0) : j <= Len(TLog)}
+           fst == {TLog[j].r : j \in {i \in nxt : TLog[i].ev = "ch"}}
+           Ok(E) == LET c0 == [i \in ids |-> IF i \in E THEN 1 ELSE 0]
+                        P == ToSet(TLog[l + 1].picks)
+                    IN  /\ \A x \in P : x.c > 0 /\ x.id \in ids
+                        /\ \A i, j \in ids : (c0[i] + TallyOf(P, i)) - (c0[j] + TallyOf(P, j)) <= 1
+           E   == IF l + 1 <= Len(TLog) /\ TLog[l + 1].ev = "batch"
+                  THEN (IF \E X \in Es : Ok(X) THEN CHOOSE X \in Es : Ok(X) ELSE CHOOSE X \in Es : TRUE)
+                  ELSE (IF ids \ fst \in Es THEN ids \ fst ELSE CHOOSE X \in Es : TRUE)
+       IN  \* well-formed recording: the picks that reveal E follow immediately
+           /\ \/ l + 1 <= Len(TLog) /\ TLog[l + 1].ev = "batch"
+              \/ \A j \in (l + 1)..(l + n - r0) : j <= Len(TLog) /\ TLog[j].ev = "ch"
+           /\ Age(TLog[l].b, TLog[l].d, E)
+
 (* an observation no contract step explains: report it, and go on with the next trace, so that   *)
 (* one run lists every rejected trace (the driver turns the report into the verdict)             *)
 RECURSIVE NextReset(_)
@@ -49,11 +87,12 @@ TBad ==
     /\ l <= Len(TLog)
     /\ \/ TLog[l].ev = "ch" /\ TLog[l].r \notin Allowed(gen, TLog[l].k)
        \/ TLog[l].ev = "batch" /\ ~BatchOK(ToSet(TLog[l].picks))
+       \/ TLog[l].ev = "hpick" /\ pc[TLog[l].p] = "pick" /\ SpanGens(TLog[l].p, TLog[l].r) = {}
     /\ PrintT(<<"VERIF_REJECT", l>>)
     /\ l' = NextReset(l)
     /\ UNCHANGED vars
 
-TNext == TReset \/ TRep \/ TCh \/ TBatch \/ TBad
+TNext == TReset \/ TRep \/ TCh \/ TBatch \/ THold \/ THPick \/ TAge \/ TSkip \/ TBad
 
 TInit ==
     /\ l = 1
